@@ -459,13 +459,11 @@ func c08Run(r *Run) {
 		} else {
 			r.bad(fk+"#most-derived-first", fd.Pos(), "method lookup does not start with the runtime class's own table: an override is not the most-derived definition")
 		}
-		// a loop whose condition or body re-reads GetExtend of a variable reassigned in the body
-		walks := false
-		ast.Inspect(fd.Body, func(n ast.Node) bool {
-			fs, ok := n.(*ast.ForStmt)
-			if !ok {
-				return true
-			}
+		// a loop whose condition re-reads GetExtend of a variable reassigned in the body; the method is
+		// looked up at each level in that loop — or the loop lives in an iterator (a function answering a
+		// func(yield)) that hands every level to yield, and GetMethod ranges over it and looks the method
+		// up on what it is handed
+		advancing := func(fs *ast.ForStmt) bool {
 			var loopVar types.Object
 			if fs.Cond != nil {
 				ast.Inspect(fs.Cond, func(m ast.Node) bool {
@@ -480,26 +478,99 @@ func c08Run(r *Run) {
 				})
 			}
 			if loopVar == nil {
-				return true
+				return false
 			}
-			reassigned, looks := false, false
+			reassigned := false
 			ast.Inspect(fs.Body, func(m ast.Node) bool {
-				switch x := m.(type) {
-				case *ast.AssignStmt:
+				if x, ok := m.(*ast.AssignStmt); ok {
 					for _, l := range x.Lhs {
 						if id, ok := l.(*ast.Ident); ok && info.Uses[id] == loopVar {
 							reassigned = true
 						}
 					}
-				case *ast.CallExpr:
+				}
+				return true
+			})
+			return reassigned
+		}
+		looksUp := func(body ast.Node, on types.Object) bool {
+			looks := false
+			ast.Inspect(body, func(m ast.Node) bool {
+				if x, ok := m.(*ast.CallExpr); ok {
 					if se, ok := ast.Unparen(x.Fun).(*ast.SelectorExpr); ok && se.Sel.Name == "GetMethod" {
-						looks = true
+						if on == nil {
+							looks = true
+						} else if id, ok := ast.Unparen(se.X).(*ast.Ident); ok && info.Uses[id] == on {
+							looks = true
+						}
 					}
 				}
 				return true
 			})
-			if reassigned && looks {
-				walks = true
+			return looks
+		}
+		// iterators of the package: function → true when a literal it returns advances along the chain
+		// and calls its function parameter in the loop
+		yieldsChain := func(ifd *ast.FuncDecl) bool {
+			found := false
+			ast.Inspect(ifd.Body, func(n ast.Node) bool {
+				lit, ok := n.(*ast.FuncLit)
+				if !ok || lit.Type.Params == nil {
+					return true
+				}
+				yields := map[types.Object]bool{}
+				for _, f := range lit.Type.Params.List {
+					if _, isFn := info.TypeOf(f.Type).Underlying().(*types.Signature); isFn {
+						for _, nm := range f.Names {
+							yields[info.Defs[nm]] = true
+						}
+					}
+				}
+				if len(yields) == 0 {
+					return true
+				}
+				ast.Inspect(lit.Body, func(m ast.Node) bool {
+					fs, ok := m.(*ast.ForStmt)
+					if !ok || !advancing(fs) {
+						return true
+					}
+					ast.Inspect(fs.Body, func(k ast.Node) bool {
+						if c, ok := k.(*ast.CallExpr); ok {
+							if id, ok := ast.Unparen(c.Fun).(*ast.Ident); ok && yields[info.Uses[id]] {
+								found = true
+							}
+						}
+						return true
+					})
+					return true
+				})
+				return true
+			})
+			return found
+		}
+		walks := false
+		ast.Inspect(fd.Body, func(n ast.Node) bool {
+			switch x := n.(type) {
+			case *ast.ForStmt:
+				if advancing(x) && looksUp(x.Body, nil) {
+					walks = true
+				}
+			case *ast.RangeStmt:
+				c, ok := ast.Unparen(x.X).(*ast.CallExpr)
+				if !ok {
+					return true
+				}
+				_, ifd := r.declAnywhere(calleeFunc(info, c))
+				if ifd == nil || r.ByPath[dpkg.PkgPath] != dpkg || !yieldsChain(ifd) {
+					return true
+				}
+				for _, kv := range []ast.Expr{x.Key, x.Value} {
+					if id, ok := kv.(*ast.Ident); ok && id.Name != "_" {
+						if o := info.Defs[id]; o != nil && looksUp(x.Body, o) {
+							walks = true
+						}
+					}
+				}
 			}
 			return true
 		})
